@@ -1,6 +1,6 @@
 (* HandlesProofs.v -- proofs for the second layer of C16: handles of the three real tables (MLL, cgio, ADF) resolve to the
    slot their open filled, are distinct, are rejected once closed (or: where that is false), and a close touches one slot. *)
-From Coq Require Import Arith List Bool Lia.
+From Coq Require Import Arith List Bool Lia Sorted.
 From CgnsV Require Import Fuel ListX Refcount RefcountProofs Handles.
 Import ListNotations.
 
@@ -61,11 +61,11 @@ Proof.
 Qed.
 
 (* cg_close looks its argument up exactly as cgi_get_file does *)
-Lemma cg_close_get m fn ok : cg_close m fn ok =
+Lemma cg_close_get v m fn ok : cg_close v m fn ok =
   match cgi_get_file m fn with
   | None => (m, false)
   | Some i => match nth i (files m) None with
-              | Some h => if ok then (mll_release m i h, true) else (m, false)
+              | Some h => if ok then (mll_release v m i h, true) else (m, false)
               | None => (m, false)
               end
   end.
@@ -90,11 +90,11 @@ Proof.
   rewrite Zf in Hn. destruct e as [[a b] c]. unfold l_slot in Hn. simpl in Hn. destruct b; discriminate.
 Qed.
 
-Lemma mll_release_MH m live i h :
-  MH m live -> nth i (files m) None = Some h -> MH (mll_release m i h) (drop_h (i + 1 + foffset m) live).
+Lemma mll_release_MH v m live i h :
+  MH m live -> nth i (files m) None = Some h -> MH (mll_release v m i h) (drop_h (i + 1 + foffset m) live).
 Proof.
   intros HM Hn. pose proof HM as [(p & MI) L1 L2 L3]. pose proof MI as [C Z H P].
-  pose proof (mll_release_inv _ _ _ _ MI Hn) as MI'.
+  pose proof (mll_release_inv v _ _ _ _ MI Hn) as MI'.
   pose proof (nth_some_lt _ _ _ Hn) as Hlt.
   unfold mll_release in *. destruct (Nat.eqb_spec (n_open m - 1) 0) as [E|E].
   - (* the last open file: the table is reset; no other entry was live *)
@@ -116,7 +116,7 @@ Proof.
     + unfold drop_h. apply NoDup_map_filter. exact L3.
 Qed.
 
-Lemma mh_step_MH m live o : MH m live -> let '(m1, l1, _) := mh_step m live o in MH m1 l1.
+Lemma mh_step_MH m live o : MH m live -> let '(m1, l1, _) := mh_step MCur m live o in MH m1 l1.
 Proof.
   intros HM. pose proof HM as [(p & MI) L1 L2 L3]. destruct o as [oc|fn ok]; simpl.
   - (* cg_open *)
@@ -147,7 +147,7 @@ Proof.
       pose proof (Succ sz) as S1.
       assert (Hn : nth (length (files m)) (files m ++ [Some (nexth m)]) None = Some (nexth m))
         by (rewrite app_nth2, Nat.sub_diag by lia; reflexivity).
-      pose proof (mll_release_MH _ _ (length (files m)) (nexth m) S1 Hn) as R.
+      pose proof (mll_release_MH MCur _ _ (length (files m)) (nexth m) S1 Hn) as R.
       assert (D : drop_h (length (files m) + 1 + foffset m)
                     ((length (files m ++ [Some (nexth m)]) + foffset m, length (files m), nexth m) :: live) = live).
       { unfold drop_h. simpl. unfold l_h at 1. simpl. rewrite app_length. simpl. rewrite Nat.eqb_refl. simpl.
@@ -160,14 +160,14 @@ Proof.
     apply cgi_get_file_spec in G. destruct G as [-> _]. apply mll_release_MH; auto.
 Qed.
 
-Lemma mh_run_MH ops : forall m live, MH m live -> let '(m1, l1) := mh_run m live ops in MH m1 l1.
+Lemma mh_run_MH ops : forall m live, MH m live -> let '(m1, l1) := mh_run MCur m live ops in MH m1 l1.
 Proof.
   induction ops as [|o r IH]; intros m live H; simpl; auto.
-  pose proof (mh_step_MH m live o H) as S1. destruct (mh_step m live o) as [[m1 l1] x]. apply IH. exact S1.
+  pose proof (mh_step_MH m live o H) as S1. destruct (mh_step MCur m live o) as [[m1 l1] x]. apply IH. exact S1.
 Qed.
 
 (* (1) a handle returned by cg_open and not yet closed resolves to the entry that open filled, holding what it put there *)
-Theorem mll_handle_resolves : forall ops m live, mh_run mll_init [] ops = (m, live) ->
+Theorem mll_handle_resolves : forall ops m live, mh_run MCur mll_init [] ops = (m, live) ->
   forall e, In e live -> cgi_get_file m (l_h e) = Some (l_slot e) /\ nth (l_slot e) (files m) None = Some (l_tag e).
 Proof.
   intros ops m live R e He. pose proof (mh_run_MH ops _ _ MH_init) as H. rewrite R in H.
@@ -175,7 +175,7 @@ Proof.
 Qed.
 
 (* (2) handles of simultaneously open files are pairwise distinct and denote distinct entries *)
-Theorem mll_handles_distinct : forall ops m live, mh_run mll_init [] ops = (m, live) ->
+Theorem mll_handles_distinct : forall ops m live, mh_run MCur mll_init [] ops = (m, live) ->
   NoDup (map l_h live) /\ NoDup (map l_slot live).
 Proof.
   intros ops m live R. pose proof (mh_run_MH ops _ _ MH_init) as H. rewrite R in H.
@@ -189,8 +189,8 @@ Proof.
 Qed.
 
 (* (3) a number that is not the handle of a file open NOW is rejected by cgi_get_file, and cg_close of it changes nothing *)
-Theorem mll_closed_handle_rejected : forall ops m live, mh_run mll_init [] ops = (m, live) ->
-  forall fn, ~ In fn (map l_h live) -> cgi_get_file m fn = None /\ forall ok, cg_close m fn ok = (m, false).
+Theorem mll_closed_handle_rejected : forall ops m live, mh_run MCur mll_init [] ops = (m, live) ->
+  forall fn, ~ In fn (map l_h live) -> cgi_get_file m fn = None /\ forall ok, cg_close MCur m fn ok = (m, false).
 Proof.
   intros ops m live R fn Hn. pose proof (mh_run_MH ops _ _ MH_init) as H. rewrite R in H.
   assert (G : cgi_get_file m fn = None).
@@ -202,7 +202,7 @@ Qed.
 
 (* (4) cg_close of one file leaves every other open file's handle resolving to the same entry with the same content *)
 Theorem mll_close_touches_one_slot : forall ops m live fn ok m' live' x,
-  mh_run mll_init [] ops = (m, live) -> mh_step m live (MClose fn ok) = (m', live', x) ->
+  mh_run MCur mll_init [] ops = (m, live) -> mh_step MCur m live (MClose fn ok) = (m', live', x) ->
   forall e, In e live -> l_h e <> fn ->
     In e live' /\ cgi_get_file m' (l_h e) = Some (l_slot e) /\ nth (l_slot e) (files m') None = Some (l_tag e).
 Proof.
@@ -210,27 +210,70 @@ Proof.
   pose proof (mh_run_MH ops _ _ MH_init) as H. rewrite R in H.
   pose proof (mh_step_MH m live (MClose fn ok) H) as H'. rewrite St in H'.
   assert (Hin : In e live').
-  { simpl in St. destruct (cg_close m fn ok) as [m1 r]. inversion St; subst.
+  { simpl in St. destruct (cg_close MCur m fn ok) as [m1 r]. inversion St; subst.
     destruct r; auto. apply in_drop_h. auto. }
   split; auto. destruct (mh_1 _ _ H' e Hin) as [A B]. split; auto. apply cgi_get_file_spec. eauto.
 Qed.
 
-(* what is FALSE: "a number, once closed, stays rejected".  cg_close ASSIGNS file_number_offset = n_cgns_files when the
-   last file closes (it does not add), so from the third generation of opens on numbers come back: here 3 is returned
-   by the third and by the fourth cg_open, and after the fourth the stale number 3 of the third resolves to the entry of
-   the fourth *)
+(* the OLD offset arithmetic (before /repo ecfdd66): cg_close ASSIGNED file_number_offset = n_cgns_files when the last file
+   closed, so from the third generation of opens on numbers came back: 3 is returned by the third and by the fourth cg_open,
+   and after the fourth the stale number 3 of the third resolves to the entry of the fourth *)
 Definition reissue_ops : list mop :=
   [MOpen OSuccess; MClose 1 true; MOpen OSuccess; MOpen OSuccess; MClose 2 true; MClose 3 true; MOpen OSuccess].
 
-Lemma mll_number_reissued :
-  mh_numbers mll_init [] reissue_ops = [Some 1; Some 2; Some 3; Some 3] /\
-  exists m live, mh_run mll_init [] reissue_ops = (m, live) /\ live = [(3, 0, 3)] /\ cgi_get_file m 3 = Some 0 /\
+Lemma mll_number_reissued_old :
+  mh_numbers MOld mll_init [] reissue_ops = [Some 1; Some 2; Some 3; Some 3] /\
+  exists m live, mh_run MOld mll_init [] reissue_ops = (m, live) /\ live = [(3, 0, 3)] /\ cgi_get_file m 3 = Some 0 /\
                  nth 0 (files m) None = Some 3.
 Proof.
   split; [vm_compute; reflexivity|].
-  destruct (mh_run mll_init [] reissue_ops) as [m live] eqn:E. vm_compute in E. inversion E; subst. clear E.
+  destruct (mh_run MOld mll_init [] reissue_ops) as [m live] eqn:E. vm_compute in E. inversion E; subst. clear E.
   eexists. eexists. split; [reflexivity|]. split; [reflexivity|]. split; vm_compute; reflexivity.
 Qed.
+
+(* the CURRENT arithmetic (+=): the high-water mark file_number_offset + n_cgns_files never goes down, every number handed
+   out so far is <= it, and cg_open returns high-water mark + 1 *)
+Definition top (m : mll) : nat := foffset m + length (files m).
+
+Lemma mh_step_top m live o m1 l1 x : mh_step MCur m live o = (m1, l1, x) ->
+  top m <= top m1 /\ (forall oc, o = MOpen oc -> forall fn, x = Some fn -> fn = S (top m) /\ top m1 = fn).
+Proof.
+  destruct o as [oc|fn ok]; simpl.
+  - unfold cg_open. destruct oc; simpl.
+    + intros Q. inversion Q; subst. split; [lia|]. intros oc _ fn Hx. discriminate.
+    + unfold mll_release. simpl. destruct (Nat.eqb (n_open m - 0) 0); intros Q; inversion Q; subst; unfold top; simpl;
+        rewrite ?app_length, ?upd_length, ?app_length; simpl; (split; [lia|]; intros oc _ fn Hx; discriminate).
+    + intros Q. inversion Q; subst. unfold top. simpl. rewrite app_length. simpl. split; [lia|].
+      intros oc _ fn Hx. inversion Hx; subst. lia.
+  - rewrite cg_close_get. destruct (cgi_get_file m fn) as [i|]; [|intros Q; inversion Q; subst; split; [lia|intros oc Ho; discriminate]].
+    destruct (nth i (files m) None) as [h|]; [|intros Q; inversion Q; subst; split; [lia|intros oc Ho; discriminate]].
+    destruct ok; [|intros Q; inversion Q; subst; split; [lia|intros oc Ho; discriminate]].
+    unfold mll_release. destruct (Nat.eqb (n_open m - 1) 0); intros Q; inversion Q; subst; unfold top; simpl;
+      rewrite ?upd_length; (split; [lia|intros oc Ho; discriminate]).
+Qed.
+
+Lemma mh_numbers_sorted ops : forall m live,
+  Forall (fun x => top m < x) (somes (mh_numbers MCur m live ops)) /\ StronglySorted lt (somes (mh_numbers MCur m live ops)).
+Proof.
+  induction ops as [|o r IH]; intros m live; simpl; [split; constructor|].
+  destruct (mh_step MCur m live o) as [[m1 l1] x] eqn:St. destruct (mh_step_top _ _ _ _ _ _ St) as [Hle Hop].
+  destruct (IH m1 l1) as [F S]. destruct o as [oc|fn ok].
+  - destruct x as [fn|]; simpl.
+    + destruct (Hop oc eq_refl fn eq_refl) as [E1 E2]. split.
+      * constructor; [lia|]. eapply Forall_impl; [|exact F]. simpl. intros a Ha. lia.
+      * constructor; auto. eapply Forall_impl; [|exact F]. simpl. intros a Ha. lia.
+    + split; auto. eapply Forall_impl; [|exact F]. simpl. intros a Ha. lia.
+  - split; auto. eapply Forall_impl; [|exact F]. simpl. intros a Ha. lia.
+Qed.
+
+(* every number cg_open returns is greater than every number it returned before in this process: numbers are never
+   issued twice, so a stale number (closed: rejected by mll_closed_handle_rejected) can never come to designate a later file *)
+Theorem mll_numbers_never_reissued : forall ops, StronglySorted lt (somes (mh_numbers MCur mll_init [] ops)).
+Proof. intros ops. exact (proj2 (mh_numbers_sorted ops mll_init [])). Qed.
+
+(* the witness session of the old defect under the current arithmetic: 1, 2, 3, 4 *)
+Lemma mll_reissue_witness_now : mh_numbers MCur mll_init [] reissue_ops = [Some 1; Some 2; Some 3; Some 4].
+Proof. vm_compute. reflexivity. Qed.
 
 (* ============================================================================================ ADF: what a close leaves alone *)
 (* a slot is either cleared or keeps its name, links and descriptor while its count can only go down *)
@@ -733,10 +776,10 @@ Definition mops8 : list mop :=
    MOpen OSuccess; MOpen OSuccess; MOpen OSuccess; MOpen OSuccess; MOpen OSuccess; MClose 1 true].
 
 Lemma mll_example8 :
-  exists m live, mh_run mll_init [] mops8 = (m, live) /\ length live = 7 /\ n_open m = 7 /\ fsize m = 16 /\
+  exists m live, mh_run MCur mll_init [] mops8 = (m, live) /\ length live = 7 /\ n_open m = 7 /\ fsize m = 16 /\
                  map l_h live = [10; 9; 8; 7; 6; 5; 4].
 Proof.
-  destruct (mh_run mll_init [] mops8) as [m live] eqn:E. vm_compute in E. inversion E; subst. clear E.
+  destruct (mh_run MCur mll_init [] mops8) as [m live] eqn:E. vm_compute in E. inversion E; subst. clear E.
   eexists. eexists. split; [reflexivity|]. repeat split; reflexivity.
 Qed.
 
